@@ -13,8 +13,39 @@ RULE = ("scripted adversarial sites (endless redirect chains /chain/k -> /chain/
 
 
 def budget(cfg):
-    """passes a seed may need when domains-crawl is off: <= 4 asset levels, each preceded by <= max-redirect redirects"""
+    """passes the harness lets a seed make before giving up (above the proved bound, so that an overrun is seen)"""
     return 4 * (cfg["maxRedirect"] + 1) + 2
+
+
+def pass_bound(cfg):
+    """theorem c06_seed_finishes_within: with domains-crawl off the finisher lets a seed go after at most this many passes"""
+    return 4 * cfg["maxRedirect"] + 4
+
+
+PENDING = ("Fresh", "PreProcessed", "Archived")
+
+
+def check_life(ctx, cfg, act, tree, trace, rp):
+    """the shape of a seed's life (theorems c06_pass_finishes_or_deepens, c06_seed_finishes_within, c01_acknowledged_tree_is_done),
+    judged on what the real stages did"""
+    if cfg["domainsCrawl"]:
+        return True
+    if trace["passes"] > pass_bound(cfg):
+        ctx.violation("the seed made %d passes through the pipeline; with --max-redirect %d at most %d are possible for a bounded tree" % (
+            trace["passes"], cfg["maxRedirect"], pass_bound(cfg)), rp)
+        return False
+    # a seed that is sent round again comes back exactly one level deeper
+    for p, t in enumerate(trace["trees"][:-1] if act != "cut" else trace["trees"]):
+        if stage.max_depth(t) != p + 1:
+            ctx.violation("after pass %d (seed sent round again) its tree is %d levels deep, expected %d" % (p + 1, stage.max_depth(t), p + 1), rp)
+            return False
+    if act == "finish" and tree is not None:
+        pend = [n["canon"] or n["raw"] for n, _, _ in stage.walk(tree) if n["st"] in PENDING]
+        if pend:
+            ctx.violation("the finisher let the seed go while %d node(s) of its tree were still pending: %s" % (len(pend), pend[:4]), rp)
+            return False
+    ctx.count("passes:%d" % trace["passes"])
+    return True
 
 
 def check_bounds(ctx, cfg, site, seed, act, tree, trace, run, start):
@@ -38,7 +69,9 @@ def check_bounds(ctx, cfg, site, seed, act, tree, trace, run, start):
             ctx.violation("%s (asset / redirect target) carries hops %d, its page has %d" % (rq["canon"], rq["hops"], trace.get("seed_hops", 0)), dict(rp, url=rq["canon"]))
             return
     if not dc and act == "cut":
-        ctx.violation("the seed was still not finished after %d passes (max-redirect %d allows at most %d)" % (trace["passes"], mr, budget(cfg) - 1), rp)
+        ctx.violation("the seed was still not finished after %d passes (max-redirect %d allows at most %d)" % (trace["passes"], mr, pass_bound(cfg)), rp)
+        return
+    if not check_life(ctx, cfg, act, tree, trace, rp):
         return
     # created nodes: redirect targets count one more than their parent, assets start at 0
     for c in trace.get("created", []):
@@ -83,7 +116,7 @@ def check_bounds(ctx, cfg, site, seed, act, tree, trace, run, start):
 
 SEEDS = ["http://site.example/", "http://site.example/", "http://site.example/chain/1", "http://site.example/deep/1.json", "http://site.example/loop/a",
          "http://site.example/red/1", "http://site.example/api/data.json", "http://site.example/nest", "http://site.example/hub",
-         "http://site.example/api/feed.json", "http://site.example/api/feed.json"]
+         "http://site.example/api/feed.json", "http://site.example/api/feed.json", "http://site.example/paged/1", "http://site.example/paged/2"]
 
 
 def gen_site(r):
@@ -101,6 +134,11 @@ def gen_site(r):
     s.add("http://site.example/api/feed.json", ctype="application/json", kind="json",
           assets=["http://site.example/img/a.png", "http://site.example/api/feed2.json"], outlinks=["http://site.example/page/2", "http://other.example/next", "http://dc.example/in"])
     s.add("http://site.example/api/feed2.json", ctype="application/json", kind="json", assets=[], outlinks=["http://site.example/page/3"])
+    # pages that advertise further pages through the Link response header (rel=next chains)
+    s.add("http://site.example/paged/1", outlinks=["/page2"], link='<http://site.example/paged/2>; rel="next", <http://other.example/alt>; rel="alternate"')
+    s.add("http://site.example/paged/2", outlinks=[], link='<http://site.example/paged/3>; rel="next"')
+    if r.random() < 0.3:
+        s.pages["http://site.example/"]["link"] = '<http://site.example/paged/1>; rel="next"'
     s.pages["http://site.example/"]["assets"] += r.sample(["/exact/1", "/chain/7", "/deep/3.json", "/hubred", "/nest", "/api/feed.json"], r.randrange(0, 3))
     return s
 
